@@ -60,7 +60,7 @@ def capture_case(draw, allow_1d=True, max_batch=2):
     S = draw(gens.array(sshape))
     dom = draw(domains(nd))
     trapz = draw(st.booleans())
-    return dict(filters=F, signals=S, domain=dom, trapz=trapz)
+    return dict(filters=F, signals=S, domain=dom, trapz=trapz, form=draw(st.sampled_from([None, None, None, "list", "int"])))
 
 
 def _oracle(F, S, dom, trapz):
@@ -146,12 +146,14 @@ def body_value(case):
     dreye = _dreye()
     F, S = np.asarray(case["filters"], dtype=float), np.asarray(case["signals"], dtype=float)
     F0, S0 = F.copy(), S.copy()
-    with calling("calculate_capture"):
-        got = dreye.calculate_capture(F, S, domain=_dom_arg(case["domain"]), trapz=case["trapz"])
+    form = case.get("form")
+    Fa, Sa = (gens.as_form(F, form), gens.as_form(S, form)) if form else (F, S)
+    with calling(f"calculate_capture (arguments as {form or 'float arrays'})"):
+        got = dreye.calculate_capture(Fa, Sa, domain=_dom_arg(case["domain"]), trapz=case["trapz"])
     exp, sc = _oracle(case["filters"], case["signals"], case["domain"], case["trapz"])
     _close(got, exp, sc, REL, "value", "calculate_capture")
     check(np.array_equal(F, F0) and np.array_equal(S, S0), "inputs-modified", "calculate_capture modified its inputs")
-    return _labels(case)
+    return _labels(case) + ([f"form:{form}" + (":int-typed" if form == "int" and getattr(Fa, "dtype", None) == np.int64 else "")] if form else [])
 
 
 @st.composite
